@@ -34,33 +34,35 @@ def _param_list(fn) -> List[str]:
 
 
 def _scope_nodes(fn: ast.AST):
-    """nodes that belong to fn's own scope (not descending into nested functions / lambdas; their definitions are yielded)"""
-    stack = list(ast.iter_child_nodes(fn))
-    while stack:
-        n = stack.pop()
+    """nodes that belong to fn's own scope in document (pre-order) order, not descending into nested functions / lambdas
+    (their definitions are yielded).  Document order rather than line numbers: spliced-in code keeps foreign positions."""
+    def rec(n):
         yield n
         if isinstance(n, FUNCS):
-            # decorators / defaults / annotations are evaluated in the enclosing scope
+            # decorators / defaults are evaluated in the enclosing scope
             for d in getattr(n, "decorator_list", []):
-                stack.append(d)
+                yield from rec(d)
             a = n.args
-            stack.extend(a.defaults)
-            stack.extend([d for d in a.kw_defaults if d is not None])
-            continue
+            for d in list(a.defaults) + [d for d in a.kw_defaults if d is not None]:
+                yield from rec(d)
+            return
         if isinstance(n, ast.ClassDef):
             # a class body is its own namespace: the names of its methods / attributes are part of its behaviour
             # (visitor dispatch, dataclass fields ...) and are never treated as renamable locals
-            stack.extend(n.decorator_list)
-            stack.extend(n.bases)
+            for d in list(n.decorator_list) + list(n.bases):
+                yield from rec(d)
+            return
+        for c in ast.iter_child_nodes(n):
+            yield from rec(c)
+    for c in ast.iter_child_nodes(fn):
+        if isinstance(fn, FUNCS) and c is fn.args:
             continue
-        stack.extend(ast.iter_child_nodes(n))
+        yield from rec(c)
 
 
 def nested_scopes(fn: ast.AST) -> List[ast.AST]:
     """functions / lambdas directly nested in fn's scope, in source order"""
-    out = [n for n in _scope_nodes(fn) if isinstance(n, FUNCS)]
-    out.sort(key=lambda n: (getattr(n, "lineno", 0), getattr(n, "col_offset", 0)))
-    return out
+    return [n for n in _scope_nodes(fn) if isinstance(n, FUNCS)]
 
 
 def scope_bindings(fn: ast.AST, is_nested: bool) -> Tuple[List[str], List[str]]:
@@ -79,9 +81,9 @@ def scope_bindings(fn: ast.AST, is_nested: bool) -> Tuple[List[str], List[str]]:
     if is_nested:
         a = fn.args
         for i, x in enumerate(a.posonlyargs + a.args + a.kwonlyargs + ([a.vararg] if a.vararg else []) + ([a.kwarg] if a.kwarg else [])):
-            events.append((getattr(fn, "lineno", 0), -1000 + i, x.arg, "nparam"))
+            events.append((-1000 + i, 0, x.arg, "nparam"))
     skip = set() if is_nested else _params(fn)
-    for n in own:
+    for idx, n in enumerate(own):
         if isinstance(n, ast.Name) and isinstance(n.ctx, ast.Store):
             p = n
             kind = "assign"
@@ -98,11 +100,11 @@ def scope_bindings(fn: ast.AST, is_nested: bool) -> Tuple[List[str], List[str]]:
                     break
                 if isinstance(p, (ast.Assign, ast.AnnAssign, ast.AugAssign, ast.NamedExpr)):
                     break
-            events.append((n.lineno, n.col_offset, n.id, kind))
+            events.append((idx, 0, n.id, kind))
         elif isinstance(n, ast.ExceptHandler) and n.name:
-            events.append((n.lineno, n.col_offset, n.name, "except"))
+            events.append((idx, 0, n.name, "except"))
         elif isinstance(n, (ast.FunctionDef, ast.AsyncFunctionDef)):
-            events.append((n.lineno, n.col_offset, n.name, "def"))
+            events.append((idx, 0, n.name, "def"))
     events.sort()
     names: List[str] = []
     kinds: List[str] = []
